@@ -234,6 +234,9 @@ pub(crate) struct ZmtpUringHandler {
   is_closing: bool,
   /// True once the Close SQE for this fd has been requested; an fd gets exactly one.
   close_requested: bool,
+  /// The peer's EOF was read while decoded messages were still waiting for the socket's queue
+  /// (full, or not attached yet). The close is carried out once they have been handed over.
+  eof_pending: bool,
   /// Non-blocking delayed close (replaces `thread::sleep`).
   /// Armed when `NetAction::ScheduleClose(Some(delay))` fires; `prepare_sqes` polls it.
   close_deadline: Option<Instant>,
@@ -271,6 +274,7 @@ impl ZmtpUringHandler {
       multishot_reader: None,
       is_closing: false,
       close_requested: false,
+      eof_pending: false,
       close_deadline: None,
       use_send_zerocopy,
       use_recv_multishot,
@@ -419,6 +423,22 @@ impl ZmtpUringHandler {
     }
   }
 
+  /// Reports the peer's close to the socket and requests the Close of the fd.
+  fn finish_peer_eof(&mut self) -> HandlerIoOps {
+    self.eof_pending = false;
+    let _ = self
+      .worker_io_config
+      .socket_mailbox
+      .try_send(Command::UringFdError {
+        endpoint_uri: self.worker_io_config.endpoint_uri.clone(),
+        error: ZmqError::ConnectionClosed,
+      });
+    let mut ops = HandlerIoOps::new();
+    self.close_deadline = None;
+    self.request_close(&mut ops);
+    ops
+  }
+
   fn prepare_multishot_cancel(&mut self) -> Option<HandlerSqeBlueprint> {
     if let Some(ref mut reader) = self.multishot_reader {
       reader.prepare_cancel_intent()
@@ -510,17 +530,13 @@ impl UringConnectionHandler for ZmtpUringHandler {
     if bytes.is_empty() {
       info!(fd = self.fd, "ZmtpUringHandler: EOF from peer");
       self.is_closing = true;
-      let _ = self
-        .worker_io_config
-        .socket_mailbox
-        .try_send(Command::UringFdError {
-          endpoint_uri: self.worker_io_config.endpoint_uri.clone(),
-          error: ZmqError::ConnectionClosed,
-        });
-      let mut ops = HandlerIoOps::new();
-      self.close_deadline = None;
-      self.request_close(&mut ops);
-      return ops;
+      // Messages that arrived before the FIN are still owed to the application.
+      self.try_drain_spillover();
+      if !self.spillover.is_empty() {
+        self.eof_pending = true;
+        return HandlerIoOps::new();
+      }
+      return self.finish_peer_eof();
     }
 
     if self.is_closing {
@@ -560,6 +576,13 @@ impl UringConnectionHandler for ZmtpUringHandler {
   }
 
   fn prepare_sqes(&mut self, interface: &UringWorkerInterface<'_>) -> HandlerIoOps {
+    if self.eof_pending {
+      self.try_drain_spillover();
+      if self.spillover.is_empty() {
+        return self.finish_peer_eof();
+      }
+      return HandlerIoOps::new();
+    }
     if self.is_closing && self.close_deadline.is_none() {
       return HandlerIoOps::new();
     }
@@ -670,6 +693,7 @@ impl UringConnectionHandler for ZmtpUringHandler {
     }
     self.is_closing = true;
     self.close_deadline = None;
+    self.eof_pending = false;
     let mut ops = HandlerIoOps::new();
     if let Some(ref mut reader) = self.multishot_reader {
       if let Some(cancel_bp) = reader.prepare_cancel_intent() {
